@@ -18,7 +18,8 @@ from vlib import harness
 ID = "C13"
 LEVEL = "exploration"
 TECHNIQUE = ("runtime monitor: generated smaps / smaps_rollup / statm / meminfo under the real parsers, "
-             "conservation oracle over the generator's mapping list")
+             "conservation oracle over the generator's mapping list; live kernel: a real child with files mapped several times "
+             "(non-adjacent), names with blanks, private / deleted / anonymous mappings vs an independent parse of its smaps")
 RULE = ("one case = one simulated process with 0-60 generated mappings (start/end/perms/offset/dev/inode/path, "
         "kB figures up to 64 TB, a per-case subset of the kernel's optional smaps lines), a roll-up rendered from "
         "the same list (served, or ENOENT, or ESRCH), a statm record and a MemTotal. Every case is evaluated with "
@@ -571,11 +572,170 @@ def corner_cases():
     return out
 
 
+# ---- live kernel: a real child with files mapped several times, anonymous and deleted mappings -------------------------
+
+LIVE_CHILD = r"""
+import mmap, os, sys, time
+d = sys.argv[1]
+keep = []
+def mapped(name, size, times=1, write=False, unlink=False):
+    p = os.path.join(d, name)
+    with open(p, "wb") as f:
+        f.write(b"x" * size)
+    fd = os.open(p, os.O_RDWR)
+    for _ in range(times):
+        m = mmap.mmap(fd, size, mmap.MAP_SHARED if not write else mmap.MAP_PRIVATE, mmap.PROT_READ | mmap.PROT_WRITE)
+        m[0:1]
+        if write:
+            m[0:4096] = b"y" * 4096
+        keep.append(m)
+        keep.append(mmap.mmap(-1, 8192))          # an anonymous region in between: the file's mappings are not adjacent
+    if unlink:
+        os.unlink(p)
+mapped("twice.bin", 65536, times=2)
+mapped("name with space.bin", 16384)
+mapped("trailing space .bin ", 16384)
+mapped("private.bin", 32768, write=True)
+mapped("gone.bin", 16384, unlink=True)
+mapped("thrice.bin", 8192, times=3)
+big = mmap.mmap(-1, 4 << 20); big[:] = b"z" * (4 << 20); keep.append(big)
+print("up", flush=True)
+while True:
+    time.sleep(1000)
+"""
+
+SMAPS_FIELDS = dict(rss="Rss", size="Size", pss="Pss", shared_clean="Shared_Clean", shared_dirty="Shared_Dirty",
+                    private_clean="Private_Clean", private_dirty="Private_Dirty", referenced="Referenced", anonymous="Anonymous",
+                    swap="Swap")
+
+
+def read_smaps(pid):
+    """-> list of dict(addr, perms, path, <kB figures in bytes>) from an independent parse of /proc/<pid>/smaps."""
+    import re as _re
+    out = []
+    cur = None
+    with open(f"/proc/{pid}/smaps", "rb") as f:
+        for ln in f.read().split(b"\n"):
+            m = _re.match(rb"^([0-9a-f]+-[0-9a-f]+) (\S{4}) [0-9a-f]+ \S+ \d+ ?(.*)$", ln)
+            if m:
+                path = m.group(3).lstrip(b" ")
+                cur = dict(addr=m.group(1).decode(), perms=m.group(2).decode(), path=os.fsdecode(path) if path else "[anon]")
+                out.append(cur)
+            elif cur is not None and b":" in ln:
+                k, v = ln.split(b":", 1)
+                v = v.split()
+                if len(v) == 2 and v[1] == b"kB":
+                    cur[k.decode()] = int(v[0]) * 1024
+    return out
+
+
+def run_live(shard, acc):
+    import subprocess
+    import sys
+    ps = setup()["ps"]
+    ps.PROCFS_PATH = "/proc"
+    tmp = tempfile.mkdtemp(prefix="c13live_") if "tempfile" in globals() else __import__("tempfile").mkdtemp(prefix="c13live_")
+    envp = {k: v for k, v in os.environ.items() if k != "LD_PRELOAD"}
+    child = subprocess.Popen([sys.executable, "-S", "-c", LIVE_CHILD, tmp], env=envp, stdout=subprocess.PIPE, stdin=subprocess.DEVNULL)
+    viols = []
+    try:
+        if not child.stdout.readline():
+            acc.inconclusive = "live child did not start"
+            return
+        pid = child.pid
+        pr = ps.Process(pid)
+        before = read_smaps(pid)
+        maps = pr.memory_maps(grouped=False)
+        grouped = pr.memory_maps(grouped=True)
+        full = pr.memory_full_info()
+        info = pr.memory_info()
+        after = read_smaps(pid)
+        with open(f"/proc/{pid}/statm") as f:
+            statm = [int(x) for x in f.read().split()]
+        page = os.sysconf("SC_PAGE_SIZE")
+        acc.count("live_mappings_read", len(before))
+        exact = ("size", "rss", "private_clean", "private_dirty", "anonymous", "swap")      # pss/shared_* move with other processes
+
+        def nd(path):
+            # ' (deleted)' may be reported or not (statement silent, see ASSUMPTIONS): compared without it on both sides
+            return path[:-10] if path.endswith(" (deleted)") else path
+        maps = [m._replace(path=nd(m.path)) for m in maps]
+        grouped_raw = grouped
+        merged = {}
+        for g in grouped_raw:
+            merged.setdefault(nd(g.path), []).append(g)
+        grouped = [gs[0]._replace(path=k) for k, gs in merged.items() if len(gs) == 1]
+        for k, gs in merged.items():
+            if len(gs) > 1 and len({g.path for g in gs}) == 1:
+                viols.append(("live:maps_grouped_duplicate_path", k))
+        refs = [{(m["addr"], m["perms"], nd(m["path"])): m for m in snap} for snap in (before, after)]
+        if set(refs[0]) != set(refs[1]):
+            acc.count("live_unstable_layout")
+        else:
+            got = {(m.addr, m.perms, m.path): m for m in maps}
+            acc.count("maps_rows_compared", len(got))
+            if set(got) != set(refs[0]):
+                lost = sorted(set(refs[0]) - set(got))[:3]
+                extra = sorted(set(got) - set(refs[0]))[:3]
+                feat = ":trailing_whitespace_stripped" if any(k[2].rstrip() != k[2] for k in lost) else ""
+                viols.append(("live:memory_maps_rows_wrong" + feat, f"missing {lost} unexpected {extra}"))
+            else:
+                for key, m in got.items():
+                    for f_ in exact:
+                        w = {r[key].get(SMAPS_FIELDS[f_], 0) for r in refs}
+                        if getattr(m, f_) not in w:
+                            viols.append(("live:memory_maps_field_wrong", f"{key}: {f_} got {getattr(m, f_)} kernel {sorted(w)}"))
+            # grouped: one row per path, every exact field the sum over that path's mappings
+            paths = {}
+            for r in refs:
+                for key, m in r.items():
+                    paths.setdefault(key[2], [{}, {}])
+            for i, r in enumerate(refs):
+                for key, m in r.items():
+                    for f_ in exact:
+                        paths[key[2]][i][f_] = paths[key[2]][i].get(f_, 0) + m.get(SMAPS_FIELDS[f_], 0)
+            gp = {}
+            for g in grouped:
+                if g.path in gp:
+                    viols.append(("live:maps_grouped_duplicate_path", g.path))
+                gp[g.path] = g
+            acc.count("grouped_rows_compared", len(gp))
+            if set(gp) != set(paths):
+                viols.append(("live:maps_grouped_paths_wrong", f"missing {sorted(set(paths) - set(gp))[:3]} unexpected {sorted(set(gp) - set(paths))[:3]}"))
+            else:
+                for path, g in gp.items():
+                    for f_ in exact:
+                        if getattr(g, f_) not in (paths[path][0].get(f_, 0), paths[path][1].get(f_, 0)):
+                            viols.append(("maps_grouped_sums_wrong", f"live: path {path!r}: {f_} got {getattr(g, f_)} want "
+                                                                     f"{paths[path][0].get(f_, 0)}"))
+            # uss = private clean + private dirty (+ hugetlb), swap: sums over the listing
+            for name, fields in (("uss", ("Private_Clean", "Private_Dirty", "Private_Hugetlb")), ("swap", ("Swap",))):
+                w = {sum(m.get(k, 0) for m in snap for k in fields) for snap in (before, after)}
+                acc.count("full_info_fields_compared")
+                if getattr(full, name) not in w:
+                    viols.append((f"live:memory_full_info_{name}_wrong", f"got {getattr(full, name)} kernel {sorted(w)}"))
+        acc.count("memory_info_compared")
+        if info.rss != statm[1] * page or info.vms != statm[0] * page:
+            acc.count("live_statm_moved") if False else None
+            with open(f"/proc/{pid}/statm") as f:
+                statm2 = [int(x) for x in f.read().split()]
+            if statm2 == statm:
+                viols.append(("live:memory_info_wrong", f"rss/vms got {(info.rss, info.vms)} kernel {(statm[1] * page, statm[0] * page)}"))
+    finally:
+        child.kill()
+        child.wait()
+        child.stdout.close()
+        import shutil as _sh
+        _sh.rmtree(tmp, ignore_errors=True)
+    acc.case(dict(kind="live"), True, viols)
+
+
 def plan(tier, seed):
     n = 20000 if tier == "quick" else 480_000
     shards = [dict(kind="corners")]
     for s, c in harness.split_range(n, 16 if tier == "quick" else 48):
         shards.append(dict(kind="gen", seed=seed, start=s, count=c))
+    shards.append(dict(kind="live"))
     return shards
 
 
@@ -590,7 +750,12 @@ def run_shard(shard):
         for i in range(shard["start"], shard["start"] + shard["count"]):
             rng = harness.rng_for(shard["seed"], "c13", i)
             run_case(gen_case(rng), acc)
+    elif shard["kind"] == "live":
+        run_live(shard, acc)
     elif shard["kind"] == "cases":
         for case in shard["cases"]:
-            run_case(case, acc)
+            if case.get("kind") == "live":
+                run_live({}, acc)
+            else:
+                run_case(case, acc)
     return acc.result()
